@@ -8,11 +8,15 @@ Line-protocol front end of the connection machine (C11, C12).
   event  : C            connect()
            F:p:<addr>   password response from addr      F:s:<m>:<t>  sensor data, m mixers, t thermostats
            F:f          frame for somebody else           F:b          frame with a bad checksum
+           F:o:<addr>   frame for us from an address without a device class (get_device_entry raises; nothing observable)
+           F:u          wire-valid ecoMAX sensor data with an undecodable payload (handle_frame raises; nothing observable)
            X            the stream breaks (EOF / exception)   XM  EOF in the middle of a frame
            D:<mode>     drain() of the current transport  W:<mode>     wait_closed() of the current transport
            Q:<n>        n requests queued                 P:d:<addr> | P:m:<i> | P:t:<i>  park a task
            A:<ms>       advance virtual time              Z            close()
            G:<addr>     a subscriber of the device-name event of addr blocks      R   every such subscriber returns
+           K:<x|t|s>    which Connection class the harness drives (extension point / TcpConnection / SerialConnection
+                        on a scripted network): nothing happens in the machine
            S:<k>        the peer sends the first k bytes of a frame and stalls: nothing happens in the machine (the
                         read in progress keeps its deadline; the read timeout is per `read()` call)
 
@@ -45,6 +49,8 @@ def parseHEv (w : String) : Option HEv :=
   | ["F", "s", m, t] => do let m ← m.toNat?; let t ← t.toNat?; pure (.ext (.feed (.sensors m t)))
   | ["F", "f"] => some (.ext (.feed .foreign))
   | ["F", "b"] => some (.ext (.feed .bad))
+  | ["F", "u"] => some (.ext (.feed .undec))
+  | ["F", "o", a] => do let a ← a.toNat?; pure (.ext (.feed (.orphan a)))
   | ["X"] => some (.ext .readFault)
   | ["XM"] => some (.ext2 (.feed .bad) .readFault)
   | ["D", m] => (match m.toList with | [c] => (parseMode c).map (fun m => .ext (.setDrain m)) | _ => none)
@@ -58,6 +64,7 @@ def parseHEv (w : String) : Option HEv :=
   | ["G", a] => do let a ← a.toNat?; pure (.ext (.gate a))
   | ["R"] => some (.ext .release)
   | ["S", k] => do let _ ← k.toNat?; pure (.ext (.advance 0))
+  | ["K", _] => some (.ext (.advance 0))
   | _ => none
 
 def b2s (b : Bool) : String := if b then "1" else "0"
@@ -68,7 +75,7 @@ def Out.show : Nat × Out → Option String
   | (t, .wclose tid) => some s!"{t}/wclose/{tid}"
   | (t, .ann a true _) => some s!"{t}/ann/{a}/1"
   | (t, .ann a false f) => some s!"{t}/ann/{a}/0/{b2s f}"
-  | (t, .deliver a k) => some s!"{t}/deliver/{a}/{k}"
+  | (t, .deliver a k) => if k = kindUndec then none else some s!"{t}/deliver/{a}/{k}"
   | (t, .newdev a) => some s!"{t}/newdev/{a}"
   | (t, .cfail) => some s!"{t}/cfail"
   | (t, .closed) => some s!"{t}/closed"
@@ -90,7 +97,11 @@ def showState (s : St) (tie : Bool) : String :=
 def runH (s : St) : List HEv → List String
   | [] => []
   | h :: hs =>
-    let tie := match h with | .advanceBy dt => tieWithin s (s.now + dt) 4096 | _ => false
+    -- a set-up task that resumes while two or more loss / reconnect cycles run in the same instant: where exactly
+    -- its requests land between the start-master requests depends on asyncio's iteration count (not modelled)
+    let evs := hevs s h
+    let amb := evs.contains .setupGo && decide ((evs.takeWhile (· != .setupGo)).count .lostRun ≥ 2)
+    let tie := (match h with | .advanceBy dt => tieWithin s (s.now + dt) 4096 | _ => false) || amb
     let r := hstep s h
     let outs := String.intercalate ";" (r.2.filterMap Out.show)
     ((if outs.isEmpty then "-" else outs) ++ "#" ++ showState r.1 tie) :: runH r.1 hs
